@@ -116,7 +116,13 @@ def play_history(rng, song, kind="plain"):
             h += [{"e": "SetHooks"}, {"e": "Load"}, {"e": "Reset"}]
         h.append({"e": "Load"})
         if hooks_when in ("after",): h.append({"e": "SetHooks"})
-        h += rewind_prelude(rng)
+        if rng.random() < 0.2:
+            # the count is changed on the loaded song and brought into force by a rewind (possibly after some playing)
+            n = rng.choice([-1, 0, 1, 2, 3, 4])
+            if rng.random() < 0.4: h.append({"e": "PlayTicks", "steps": [], "max": rng.choice([1, 3, 6]), "partial": 1})
+            h += [{"e": "SetLoopCount", "n": n}, {"e": "Rewind"}]
+        else:
+            h += rewind_prelude(rng)
         h.append({"e": "PlayTicks", "steps": [], "max": 150 if n < 0 else 3000})
         return h
     h.append({"e": "SetHooks"})
